@@ -402,6 +402,8 @@ def corpus():
                   ops=["write", dict(layout_edit=["reduce", 12]), "write_file", dict(layout_edit=["extend", hx("19"), 3]), "write"]))
     c.append(dict({**base, **five}, layout="PMS_5B", lay=dict(mode="owned", variant=["swap", 0, 4]),
                   ops=["write", dict(layout_edit=["extend", hx("2A"), 9]), dict(edit="hits_cols", k=0), "write"]))
+    five = dict(bpms=[[R(0), R(150)], [R(1600), R(75)]], hits=[[k, hx("k.wav" if k == 2 else ""), R(400.0 * k)] for k in range(5)],
+                holds=[[4, hx("k.wav"), R(2400), R(800)], [0, hx("zz"), R(800), R(400)]])
     # charts OBTAINED through the readers with every layout (by position / keyword / default argument), then written with
     # every layout — explicitly, by keyword, by default argument; several writes of one object with different layouts
     for k_s, sl in enumerate(LAYOUT_COLS):
@@ -789,8 +791,9 @@ def convert_from(m, via):
         from reamber.quaver.lists.notes.QuaHoldList import QuaHoldList as LL
         from reamber.algorithms.convert.QuaToBMS import QuaToBMS as Conv
     o = M()
-    o.hits = HL([H(offset=float(t), column=int(c)) for t, c in zip(m.hits.offset, m.hits.column)])
-    o.holds = LL([L(offset=float(t), column=int(c), length=float(g)) for t, c, g in zip(m.holds.offset, m.holds.column, m.holds.length)])
+    kw = dict(keysounds=[]) if via == "qua" else {}
+    o.hits = HL([H(offset=float(t), column=int(c), **kw) for t, c in zip(m.hits.offset, m.hits.column)])
+    o.holds = LL([L(offset=float(t), column=int(c), length=float(g), **kw) for t, c, g in zip(m.holds.offset, m.holds.column, m.holds.length)])
     o.bpms = BL([B(offset=float(t), bpm=float(b)) for t, b in zip(m.bpms.offset, m.bpms.bpm)])
     o.title, o.artist = "song", "me"
     if via == "osu":
@@ -1001,6 +1004,19 @@ def judge(case, drv, impl4, ld=None, layout=None, head=None):
                  holds=[[c, s_, o, R(F(t) - F(o))] for c, s_, o, t in r_holds])
     m = drv.call("c05.write", layout=layout, layout_def=ld, no_sample_default=case["no_sample_default"], chart=model_chart(case, impl4[2], head))
     facts = m["facts"]
+    mc = model_chart(case, impl4[2], head)
+    # the chart's sample table and text fields as they are at this write (hex)
+    table_files = {v for _k, v in mc["samples"]}
+
+    def known(sx):
+        """a sample that is a file of the chart's #WAV table and survives the reader's strip (non-empty, no white space at
+        its ends): its written object id must point back to it"""
+        if sx not in table_files or not sx:
+            return None
+        b_ = bytes.fromhex(sx)
+        return sx if (b_.strip() == b_ and b_ and b"\r" not in b_ and b"\n" not in b_) else None
+    head_keys = {bytes.fromhex(k) for k, _v in mc["misc"]}
+    d46 = bool(head_keys & {b"TITLE", b"ARTIST", b"PLAYLEVEL"})
     tags = [layout, f"bpms{min(len(chart['bpms']), 4)}"]
     if not impl4[3]:
         tags.append("row-labels-non-default")
@@ -1065,6 +1081,7 @@ def judge(case, drv, impl4, ld=None, layout=None, head=None):
         s_valid = all(valid_flags)
         den = drv.call("c04.denote", layout=layout, layout_def=ld, lines=[l.hex() for l in lines])["ok"]["den"]
         s_hits = s_holds = s_tempo = False
+        s_samples = s_head = True
         why = []
         if den is None:
             why.append("the written text has no by-the-book meaning")
@@ -1081,6 +1098,27 @@ def judge(case, drv, impl4, ld=None, layout=None, head=None):
             s_holds = set(wanth) == set(goth) and all(len(wanth[k]) == len(goth[k]) for k in wanth) and all(
                 abs(w[0] - g[0]) <= w[2] + abs(w[0]) * EPS and abs(w[1] - g[1]) <= w[3] + abs(w[1]) * EPS
                 for k in wanth for w, g in zip(wanth[k], goth[k]))
+            # samples: an object whose in-memory sample is a file of the #WAV table is denoted with exactly that sample
+            if s_hits and s_holds:
+                wants = group([(c, F(o), known(s_) or "") for (c, s_, o) in chart["hits"]], 1)
+                gots = group([(h[0], F(h[2]), h[1]) for h in den["hits"]], 1)
+                wantsh = group([(c, F(o), known(s_) or "") for (c, s_, o, g) in chart["holds"]], 1)
+                gotsh = group([(h[0], F(h[2]), h[1]) for h in den["holds"]], 1)
+                s_samples = all(not w[1] or w[1] == g[1] for k in wants for w, g in zip(wants[k], gots[k])) and \
+                    all(not w[1] or w[1] == g[1] for k in wantsh for w, g in zip(wantsh[k], gotsh[k]))
+                if any(w[1] for k in wants for w in wants[k]) or any(w[1] for k in wantsh for w in wantsh[k]):
+                    tags.append("known-samples")
+            # text fields of the header: title / artist / version as the file gives them (the reader strips the line)
+            hd = den["header"]
+            want_head = [bytes.fromhex(x).rstrip().hex() for x in (mc["title"], mc["artist"], mc["version"])]
+            got_head = [hd["title"], hd["artist"], hd["version"]]
+            plain = all(b"\r" not in bytes.fromhex(x) and b"\n" not in bytes.fromhex(x) and bytes.fromhex(x).lstrip() == bytes.fromhex(x)
+                        and not bytes.fromhex(x).startswith(b"\x00") for x in (mc["title"], mc["artist"], mc["version"]))
+            s_head = (want_head == got_head) or not plain
+            if not s_samples:
+                why.append("samples")
+            if not s_head:
+                why.append("header fields")
             # tempo timeline: the denoted changes (the measure-0 object replaces the header tempo), as (time, bpm)
             tempo = den["tempo"]
             if len(tempo) > 1 and tempo[1][2][0] == 0 and F(tempo[1][2][1]) == 0:
@@ -1099,13 +1137,17 @@ def judge(case, drv, impl4, ld=None, layout=None, head=None):
                 why.append("tempo timeline")
         if not s_valid:
             why.append("invalid data line")
-        ok = s_valid and s_hits and s_holds and s_tempo
+        ok = s_valid and s_hits and s_holds and s_tempo and s_samples and s_head
         if not ok:
             detail["spec"] = dict(why=why, lines=[l.decode("latin-1")[:100] for l in lines][:30],
                                   denotation=None if den is None else dict(hits=[(h[0], float(F(h[2]))) for h in den["hits"]][:20],
                                                                            holds=[(h[0], float(F(h[2])), float(F(h[3]))) for h in den["holds"]][:20],
-                                                                           tempo=[(float(F(t[0])), t[2][0], str(F(t[2][1]))) for t in den["tempo"]][:10]))
-            if d31:
+                                                                           tempo=[(float(F(t[0])), t[2][0], str(F(t[2][1]))) for t in den["tempo"]][:10],
+                                                                           header=[den["header"][k] for k in ("title", "artist", "version")],
+                                                                           chart_header=[mc["title"], mc["artist"], mc["version"]]))
+            if s_valid and s_hits and s_holds and s_tempo and s_samples and not s_head and d46:
+                kf = "D46"
+            elif d31:
                 kf = "D35"
             elif d06:
                 kf = "D06"
@@ -1115,7 +1157,7 @@ def judge(case, drv, impl4, ld=None, layout=None, head=None):
                 kf = "D37"
     if facts["max_measure"] >= 988:
         tags.append("measure-999" if facts["max_measure"] == 999 else ("measures>=1000" if facts["max_measure"] >= 1000 else "measures-988-998"))
-    for flag, name in ((d31, "d31-pred"), (d06, "d06-pred"), (d32, "d32-pred"), (d33, "d33-pred"), (off_grid, "off-grid"), (bool(chart["holds"]), "holds")):
+    for flag, name in ((d31, "d31-pred"), (d06, "d06-pred"), (d32, "d32-pred"), (d33, "d33-pred"), (off_grid, "off-grid"), (bool(chart["holds"]), "holds"), (d46, "d46-pred")):
         if flag:
             tags.append(name)
     in_dom = bool(quantified and facts["on_measure_lines"] and not d31 and not d06 and not d32 and not d33)
